@@ -75,7 +75,7 @@ TECHNIQUE = "property-based testing: interpreted op lists against a reference tr
 INF = float("inf")
 NAN = float("nan")
 CLASSES = ["map", "int", "float", "str", "bool", "quantity", "sel", "unit", "generic"]
-KEYS = ["a", "b", "c", "d", "root", "k1", "e"]
+KEYS = ["a", "b", "c", "d", "root", "k1", "e", "a ", " b"]        # (a key is any string without a dot)
 LOOKUP = KEYS + ["", "zz"]
 # (among them alias spellings that are displayed differently from how they are written: 'mum', 'A', 'hr', 'week')
 QUNITS = {"Length": {"m": 1.0, "km": 1000.0, "cm": 0.01, "mm": 0.001, "mum": 1e-06, "A": 1e-10},
